@@ -262,6 +262,22 @@ func H_C11_constant(v *zzverif.T) {
 			wantAny = w
 		}
 		attrs = append(attrs, zzAttrT("value", &onnx.TensorProto{DataType: code, Dims: []int64{int64(n)}, RawData: append([]byte(nil), raw...)}))
+	case "value_undecodable":
+		// a value tensor that cannot be decoded (dims that its data does not fill, raw bytes that are not a whole
+		// number of elements, an element type without a representation) is refused, not turned into nothing
+		f := zzverif.Syms[float32](v, "f", 2)
+		raw := zzverif.Syms[byte](v, "raw", 5)
+		switch v.CStr("dtype") {
+		case "short":
+			attrs = append(attrs, zzAttrT("value", &onnx.TensorProto{DataType: 1, Dims: []int64{3}, FloatData: append([]float32(nil), f...)}))
+		case "raw5":
+			attrs = append(attrs, zzAttrT("value", &onnx.TensorProto{DataType: 1, Dims: []int64{1}, RawData: append([]byte(nil), raw...)}))
+		case "float16":
+			attrs = append(attrs, zzAttrT("value", &onnx.TensorProto{DataType: 10, Dims: []int64{2}, RawData: append([]byte(nil), raw[:4]...)}))
+		case "string":
+			attrs = append(attrs, zzAttrT("value", &onnx.TensorProto{DataType: 8, Dims: []int64{1}, StringData: [][]byte{[]byte("x")}}))
+		}
+		expectErr = true
 	case "none":
 		expectErr = true
 	case "two":
